@@ -223,6 +223,18 @@ impl XmlConverter {
                         }
                         None => None,
                     };
+                    // The document is written as UTF-8 whatever the
+                    // declaration says. Any other encoding in the declaration
+                    // would make a reader decode the bytes wrongly.
+                    if let Some(e) = encoding {
+                        if !e.eq_ignore_ascii_case("utf-8") {
+                            return Err(BuildError::new(
+                                "XML encoding must be UTF-8, documents are only written as UTF-8",
+                                ErrorType::TypeFail,
+                            )
+                            .to_boxed());
+                        }
+                    }
                     writer.write(XmlEvent::StartDocument {
                         // We default to version 1.1 documents if not specified.
                         version: version.unwrap_or(XmlVersion::Version10),
